@@ -16,7 +16,7 @@ def bar_len(divs, beats, beat_type):
 
 def make_part(score, rng, pid="P1", divs=None, n_measures=None, voices=2, staves=1, grace=True, ties=True,
               chords=True, slurs=True, pickup=False, ts_change=False, rests=True, directions=False,
-              alters=(-1, 0, 0, 0, 1), max_notes=40, key=None, clef=True, polyphony=False):
+              alters=(-1, 0, 0, 0, 1), max_notes=40, key=None, clef=True, polyphony=False, no_voice=0.0, no_staff=0.0):
     divs = divs or rng.choice([1, 2, 4, 6, 12])
     while True:
         beats, beat_type = rng.choice(TS)
@@ -39,7 +39,8 @@ def make_part(score, rng, pid="P1", divs=None, n_measures=None, voices=2, staves
         length = cur_bl
         if m == 0 and pickup:
             length = rng.randint(1, max(1, cur_bl - 1))
-        if ts_change and m == n_measures // 2 and m > 0:
+        # (no signature change directly after a pickup: the bar the pickup belongs to would be ill-defined)
+        if ts_change and m == n_measures // 2 and m > 0 and not (pickup and m == 1):
             for _ in range(20):
                 b2, bt2 = rng.choice(TS)
                 l2 = bar_len(divs, b2, bt2)
@@ -78,7 +79,8 @@ def make_part(score, rng, pid="P1", divs=None, n_measures=None, voices=2, staves
                         if (st, al, oc) not in used:
                             break
                     used.add((st, al, oc))
-                    n = score.Note(step=st, octave=oc, alter=al if al != 0 else None, id=new_id(), voice=v, staff=staff)
+                    n = score.Note(step=st, octave=oc, alter=al if al != 0 else None, id=new_id(),
+                                   voice=None if rng.random() < no_voice else v, staff=None if rng.random() < no_staff else staff)
                     part.add(n, pos, pos + dur)
                     notes.append(n)
                     count += 1
